@@ -629,7 +629,11 @@ func nonWritingExternal(name string) bool {
 		"invoke reflect.Type.String", "invoke reflect.Type.MethodByName", "invoke reflect.Type.Name":
 		return true
 	}
-	if strings.HasPrefix(name, "(encoding/binary.bigEndian).Uint") || strings.HasPrefix(name, "math.") {
+	if strings.HasPrefix(name, "(encoding/binary.bigEndian).Uint") || strings.HasPrefix(name, "math.") || strings.HasPrefix(name, "strconv.") {
+		return true
+	}
+	switch name {
+	case "(*strings.Builder).String", "(*strings.Builder).Len", "(*bytes.Buffer).String", "(*bytes.Buffer).Len", "(*bytes.Buffer).Bytes":
 		return true
 	}
 	if strings.HasPrefix(name, "(reflect.Value).") {
@@ -640,6 +644,18 @@ func nonWritingExternal(name string) bool {
 		return true
 	}
 	if strings.HasPrefix(name, "(reflect.StructTag).") || strings.HasPrefix(name, "(*reflect.rtype).") {
+		return true
+	}
+	return false
+}
+
+// writerExternal: library functions that write only into their first argument (a buffer or an
+// io.Writer whose static type the numeric engine's model table restricts to strings.Builder / bytes.Buffer).
+func writerExternal(name string) bool {
+	switch name {
+	case "fmt.Fprintf", "fmt.Fprint", "fmt.Fprintln",
+		"(*strings.Builder).WriteString", "(*strings.Builder).WriteByte", "(*strings.Builder).WriteRune", "(*strings.Builder).Write", "(*strings.Builder).Reset",
+		"(*bytes.Buffer).WriteString", "(*bytes.Buffer).WriteByte", "(*bytes.Buffer).WriteRune", "(*bytes.Buffer).Write", "(*bytes.Buffer).Reset":
 		return true
 	}
 	return false
@@ -829,6 +845,14 @@ func (st *fnState) externalEffects(in ssa.CallInstruction, c *ssa.CallCommon, na
 		}
 		return
 	case nonWritingExternal(name):
+		return
+	case writerExternal(name):
+		// formatted output into a buffer: only the destination (first argument) is written
+		if len(args) >= 1 {
+			if r := st.t(args[0]); !rootsOnly(r, st.sum.NRoots).empty() {
+				st.write(r, site(name+": destination"))
+			}
+		}
 		return
 	case name == "(reflect.Value).Call" && st.a.ReflectCallTargets != nil:
 		if len(args) >= 1 {
